@@ -698,6 +698,8 @@ class Engine:
             return TV(S.VEnum(z3.IntVal(0), z3.IntVal(self.clsid(v.cls))))
         if isinstance(v, (Closure, FuncRef, BoundMethod)):
             return self.run.closure_val(v)
+        if isinstance(v, BuiltinRef) and v.name == "all":
+            return TV_ALL          # the builtin used as a marker value ("all qubits")
         raise Unsupported(f"cannot materialise {v}")
 
     def materialise_seq(self, view, kind):
